@@ -47,7 +47,8 @@ CONSTANTS
     InsertFirst,            \* TRUE: the code AS IT WAS - the pipe-table entry is made before the awaited
                             \* on_new_udp_connection (and withdrawn only if that returns an error);
                             \* FALSE: the intended behaviour (and the code as it is now) - the entry is made after it
-    WithHold                \* model checking: the SOCKS5 server may hold its UDP ASSOCIATE reply
+    WithHold,               \* model checking: the SOCKS5 server may hold its UDP ASSOCIATE reply
+    EmptyOn                 \* 0 | 1: the environment operations at positions of this parity carry an empty payload (models only)
 
 Key(s, d) == [s |-> s, d |-> d]
 K(f) == Key(Src[f], Dst[f])
@@ -463,8 +464,14 @@ Impl  == Begin \/ Left \/ Right \/ Timer \/ Return
 
 \* the harness injects between polls: every chain idle, or the left pipe parked in a held handshake
 EnvQuiet == began /\ (Quiet \/ (Parked /\ hold))
-EnvDgram  == EnvQuiet /\ \E f \in Flows : ClientDgram(f, nextId, f)
-EnvReply  == EnvQuiet /\ \E f \in Flows : PeerReplies(f, nextId, f)
+\* payload lengths in the models: a datagram of flow f is EMPTY or has f octets (distinct per flow);
+\* which of the two is fixed by the parity of the operation's position in the history (EmptyOn), so
+\* that both lengths occur on every flow and in both directions without multiplying the state space.
+\* An empty datagram delivers 0 bytes but is a delivery like any other: it reaches the other side,
+\* refreshes the flow's activity and counts as a plain-DNS query / answer
+Lens(f) == IF ops % 2 = EmptyOn THEN {0} ELSE {f}
+EnvDgram  == EnvQuiet /\ \E f \in Flows : \E n \in Lens(f) : ClientDgram(f, nextId, n)
+EnvReply  == EnvQuiet /\ \E f \in Flows : \E n \in Lens(f) : PeerReplies(f, nextId, n)
 EnvRelay  == EnvQuiet /\ inq = << >> /\ (RelayDown \/ RelayUp)
 EnvRefuse == EnvQuiet /\ inq = << >> /\ \E b \in BOOLEAN : SetRefuse(b)
 EnvHold   == WithHold /\ EnvQuiet /\ \E b \in BOOLEAN : SetHold(b)
